@@ -461,6 +461,13 @@ func histConfig(g *pkgGen, i int) *genOut {
 	c.Contents = append(c.Contents,
 		&files.Content{Source: "src/d/x", Destination: fmt.Sprintf("/etc/hist%d/keep.conf", i), Type: files.TypeConfigNoReplace},
 		&files.Content{Source: "src/f1", Destination: fmt.Sprintf("/etc/hist%d/optional.conf", i), Type: files.TypeConfigMissingOK})
+	// a pattern entry whose match collides with an earlier entry that only rpm ships: rpm's packaging fails, the others'
+	// succeed - and the failure leaves nothing behind in the shared configuration
+	if i%4 == 3 && i < 50 { // (not in the configurations below that another format cannot be built from: which of two failures validation reports first is not fixed)
+		c.Contents = append(c.Contents,
+			&files.Content{Source: "src/f1", Destination: fmt.Sprintf("/usr/share/hist%d/x", i), Packager: "rpm"},
+			&files.Content{Source: "src/d/*", Destination: fmt.Sprintf("/usr/share/hist%d/", i)})
+	}
 	// entries addressed to a packager in a spelling the packagers do not recognise (they belong to nobody), next to
 	// properly addressed ones: nothing may "tidy" the tag on the shared entry
 	c.Contents = append(c.Contents,
